@@ -2,6 +2,7 @@
 from rulelib import *
 from report import CheckError
 from fdi import FDI, Const, Agg, Sym, Ref
+import table as T
 import c01, c04
 
 EXPLANATION = ("Decides the premises from which the property follows for every schedule (critical sections are totally ordered, each emits one "
@@ -116,6 +117,13 @@ def async_rules(R, ctx):
                 msg = f"{effs[ri][0]}#{ri + 1}.0"
                 kind = next((str(v) for a, v in r.cond if a == f"{msg}[0]"), 'data')
                 kind = {'83': 'S', '70': 'F'}.get(kind, 'data')
+                # `content == ASYNC_SHUTDOWN` instead of a slice pattern: an equality atom between the message and the constant
+                for a, v in r.cond:
+                    info = r.atom_info.get(a, {})
+                    if info.get('kind') == 'ord' and v == 'eq':
+                        for (c_, o_) in ((info['a'], info['b']), (info['b'], info['a'])):
+                            if isinstance(c_, tuple) and c_[0] == 'const' and c_[1] in (b'S', b'F') and T.eff_indices(o_, r'Receiver::<T>::recv$') == {ri + 1}:
+                                kind = c_[1].decode()
                 writes = [e for e in seg if e[0].split('::')[-1] in ('write_buffer', 'write_all')]
                 if kind == 'data' and seg:
                     if len(writes) != 1 or msg not in writes[0][1][1]:
